@@ -14,7 +14,7 @@
        "H"   the letters  http        "Hs"  the letters  https
        "l"   localhost     "i"  127.0.0.1     "a"  the allowlisted host name     "e"  a foreign host name
        "x"   some other letters (never completes http->https)    "P"  the service prefix name (letters)
-       "8"   the digits 8443
+       "8"   the digits 8443          "-"  a hyphen (a host / scheme character like any letter)
 
    Ref(s) follows the parser state by state (scheme start / scheme / no scheme / special relative or
    authority / special authority (ignore) slashes / relative / relative slash / authority / host /
@@ -27,17 +27,18 @@ EXTENDS Naturals, Sequences, FiniteSets
 CONSTANTS FlatAlphabet, FlatLen,      \* every string over FlatAlphabet up to FlatLen (both roles' scheme machinery)
           TailAlphabet, TailLen,      \* every tail over TailAlphabet up to TailLen, behind each authority-introducing prefix
           PrefixSchemes, PrefixSlashes, \* authority-introducing prefixes <<scheme, ":", a, b>>, a and b \in PrefixSlashes
+          HostLen,                    \* every host over HostAlphabet up to HostLen behind scheme://
           LeadLen,                    \* every run over LeadSet up to LeadLen between "/" (or "scheme:") and a host name
           BaseScheme                  \* scheme of the service URL the browser resolves against: "H" or "Hs"
 
-AllTokens == {":", "/", "B", "@", "?", "#", ".", "[", "]", "%", "T", "S", "C", "H", "Hs", "l", "i", "a", "e", "x", "P", "8"}
+AllTokens == {":", "/", "B", "@", "?", "#", ".", "-", "[", "]", "%", "T", "S", "C", "H", "Hs", "l", "i", "a", "e", "x", "P", "8"}
 
 Slash      == {"/", "B"}                       \* equivalent for special schemes
 StripSet   == {"S", "C", "T"}                   \* C0 control or space (tab/LF/CR are C0 controls too)
 AlphaStart == {"H", "Hs", "l", "a", "e", "x", "P"}
-SchemeChar == AlphaStart \cup {"8", "i", "."}   \* ASCII alphanumeric, "+", "-", "."
+SchemeChar == AlphaStart \cup {"8", "i", ".", "-"}   \* ASCII alphanumeric, "+", "-", "."
 AuthorityEnd == {"/", "B", "?", "#"}           \* for special schemes the backslash ends the authority too
-DomainTok  == {"H", "Hs", "l", "a", "e", "x", "P", "."}
+DomainTok  == {"H", "Hs", "l", "a", "e", "x", "P", ".", "-", "8", "i"}   \* letters, digits, hyphen, dot
 
 Min(I) == CHOOSE i \in I : \A j \in I : i <= j
 Max(I) == CHOOSE i \in I : \A j \in I : i >= j
@@ -53,18 +54,29 @@ StripEnds(s) == LET I == {i \in 1..Len(s) : s[i] \notin StripSet} IN IF I = {} T
 Clean(s) == SelectSeq(StripEnds(s), LAMBDA t : t # "T")
 
 \* ---------------------------------------------------------------- host / port
+(* "ends in a number" (URL Standard, host parsing): only the LAST label decides whether the IPv4 parser runs.  The last
+   label is numeric iff, reading the host backwards (one trailing dot ignored), a run of digit tokens reaches the start,
+   a dot, or the token "i" (whose own last label is the digit 1).  127.0.0.1.evil.example is a DOMAIN.               *)
+NoTrailingDot(h) == IF h # <<>> /\ h[Len(h)] = "." THEN SubSeq(h, 1, Len(h) - 1) ELSE h
+RECURSIVE DigitsBack(_, _)
+DigitsBack(g, k) == IF k = 0 THEN TRUE
+                    ELSE IF g[k] = "8" THEN DigitsBack(g, k - 1)
+                    ELSE g[k] \in {"i", "."}
+LastLabelNumeric(h) == LET g == NoTrailingDot(h) IN
+                         g # <<>> /\ (g[Len(g)] = "i" \/ (g[Len(g)] = "8" /\ DigitsBack(g, Len(g) - 1)))
 HostClass(h) ==
   IF h = <<>> THEN "failure"                                       \* host-missing
   ELSE IF Has(h, {"S", "C", "%"}) THEN "failure"                   \* forbidden host code point (after percent-decoding)
   ELSE IF Has(h, {"[", "]"}) THEN "uncertain"                      \* IPv6 literal or failure
   ELSE IF h = <<"l">> \/ h = <<"i">> THEN "loopback"
-  ELSE IF Has(h, {"8", "i"}) THEN "uncertain"                      \* may end in a number: IPv4 parser
+  ELSE IF LastLabelNumeric(h) THEN "uncertain"                     \* IPv4 parser: some address, or failure
   ELSE IF ~(\A k \in 1..Len(h) : h[k] \in DomainTok) THEN "uncertain"
   ELSE IF h[1] = "." \/ (\E k \in 1..(Len(h) - 1) : h[k] = "." /\ h[k + 1] = ".") THEN "uncertain"   \* empty label
   ELSE IF h[Len(h)] = "." THEN (IF Len(h) >= 2 /\ h[Len(h) - 1] \in {"l", "a"} THEN "uncertain" ELSE "domain")
   ELSE IF Len(h) >= 2 /\ h[Len(h)] = "l" /\ h[Len(h) - 1] = "." THEN "uncertain"                     \* *.localhost
   ELSE IF h = <<"a">> THEN "allowhost"
-  ELSE "domain"                                                    \* a definite name that is none of ours
+  ELSE "domain"                                                    \* a definite name that is none of ours:
+                                                                   \* localhost.evil.example, 127.0.0.1.evil.example, evil-localhost ...
 
 PortClass(p) ==
   IF p = <<>> THEN "default"
@@ -161,8 +173,14 @@ LeadSet == {"/", "B", "T", "S", "C"}
 Leads == StrUpTo(LeadSet, LeadLen)
 OrigLead(d) == Orig({<<"/">> \o w \o <<h>> \o t : w \in Leads, h \in {"e", "l"}, t \in {<<>>, <<"/", "x">>}})
 RtLead(d)   == Rt({<<sc, ":">> \o w \o <<h>> : sc \in {"H", "Hs"}, w \in Leads, h \in {"e", "l", "a"}})
-Cases(d) == UNION {RtFlat(d), RtTails(d), RtNeigh(d), RtLead(d), OrigFlat(d), OrigTails(d), OrigNeigh(d), OrigLead(d)}
-CaseFamilies == <<"RtFlat", "RtTails", "RtNeigh", "RtLead", "OrigFlat", "OrigTails", "OrigNeigh", "OrigLead">>
+(* the "host look-alike" family: every host spelled from loopback names, the allowlisted name, a foreign name, other
+   letters, digits, dots and hyphens -- localhost.evil.example, 127.0.0.1.evil.example, 127.evil.example, evil-localhost,
+   <allowlisted>.evil.example, evil.example.<allowlisted> ... -- behind http:// and https://, bare or followed by a path *)
+HostAlphabet == {"l", "i", "a", "e", "x", ".", "-", "8"}
+RtHosts(d) == Rt({<<sc, ":", "/", "/">> \o h \o t : sc \in {"H", "Hs"}, h \in StrUpTo(HostAlphabet, HostLen) \ {<<>>},
+                                                    t \in {<<>>, <<"/", "x">>}})
+Cases(d) == UNION {RtFlat(d), RtTails(d), RtNeigh(d), RtLead(d), RtHosts(d), OrigFlat(d), OrigTails(d), OrigNeigh(d), OrigLead(d)}
+CaseFamilies == <<"RtFlat", "RtTails", "RtNeigh", "RtLead", "RtHosts", "OrigFlat", "OrigTails", "OrigNeigh", "OrigLead">>
 
 Al(c) == IF c.role = "rt" THEN c.cfg ELSE "noport"
 Expected(c) == [kind |-> Ref(c.s, Al(c))]
